@@ -741,7 +741,9 @@ func (t *trzszTransfer) pipelineRecvAck(ctx *pipelineContext, size int64, ackCha
 				bufSize := t.bufferSize.Load()
 
 				if length == bufSize && chunkTime < 500*time.Millisecond && bufSize < t.transferConfig.MaxBufSize {
-					t.bufferSize.Store(minInt64(bufSize*2, t.transferConfig.MaxBufSize))
+					// keep the size a multiple of 4: a base64 chunk must never be a lone "=",
+					// which the receiver takes for the pause keep-alive marker
+					t.bufferSize.Store(minInt64(bufSize*2, t.transferConfig.MaxBufSize) &^ 3)
 					if t.bufInitPhase.Load() {
 						t.bufInitWG.Done()
 					}
@@ -751,7 +753,7 @@ func (t *trzszTransfer) pipelineRecvAck(ctx *pipelineContext, size int64, ackCha
 						t.bufInitWG.Done()
 					}
 					if chunkTime >= 2*time.Second && length <= bufSize {
-						bufSize = bufSize / int64(chunkTime/time.Second)
+						bufSize = (bufSize / int64(chunkTime/time.Second)) &^ 3
 						if bufSize < 1024 {
 							bufSize = 1024
 						}
